@@ -273,7 +273,7 @@ func (j *Join) JoinMatchFunc(lk string, lv *map[string]any, l, r *HashedTable) (
 		if !ok {
 			return false, nil, INVALID_TYPE.Extend(fmt.Sprintf("failed to build `JOIN` expression, expected boolean but found %T", rsValue))
 		}
-		if rsValue || !j.joinType.IsInner() {
+		if rsValue {
 			b = true
 			if len(j.into) != 0 {
 				current := make(Map)
@@ -308,6 +308,17 @@ func (j *Join) JoinMatchFunc(lk string, lv *map[string]any, l, r *HashedTable) (
 				mapper[j.rightIdent] = nil
 				slice = append(slice, mapper)
 			}
+		}
+	}
+	// outer join: rows of a key group that found no partner are kept once,
+	// with the other side set to NULL
+	if !b && !j.joinType.IsInner() && len(j.into) == 0 {
+		b = true
+		for _, lr := range l.Rows[lk] {
+			mapper := make(Map)
+			maps.Copy(mapper, (*lr).(Map))
+			mapper[j.rightIdent] = nil
+			slice = append(slice, mapper)
 		}
 	}
 	return b, slice, nil
